@@ -587,7 +587,7 @@ func main() {
 		raceMain(r)
 		return
 	}
-	nCases := 170
+	nCases := 130
 	if r.Thorough {
 		nCases = 9000
 	}
